@@ -96,16 +96,19 @@ func gbLocusLine(r gbRec) string {
 	return fmt.Sprintf("LOCUS       %-16s %11d bp    %-6s  %-8s %s %s", r.locusName, len(r.seq), r.molType, topo, r.division, r.date)
 }
 
-// location text wrapped after commas to 58 columns
+// the qualifier / location field spans columns 22-80
+const gbFieldWidth = 59
+
+// location text wrapped after commas to the field width
 func gbWrapLocation(loc string) []string {
-	if len(loc) <= 58 {
+	if len(loc) <= gbFieldWidth {
 		return []string{loc}
 	}
 	var lines []string
 	cur := ""
 	parts := strings.SplitAfter(loc, ",")
 	for _, p := range parts {
-		if len(cur)+len(p) > 58 && cur != "" {
+		if len(cur)+len(p) > gbFieldWidth && cur != "" {
 			lines = append(lines, cur)
 			cur = ""
 		}
@@ -124,14 +127,14 @@ func gbQualLines(q gbQual) []string {
 	if q.key == "translation" {
 		full := "/translation=\"" + q.val + "\""
 		var lines []string
-		for len(full) > 58 {
-			lines = append(lines, full[:58])
-			full = full[58:]
+		for len(full) > gbFieldWidth {
+			lines = append(lines, full[:gbFieldWidth])
+			full = full[gbFieldWidth:]
 		}
 		return append(lines, full)
 	}
 	head := "/" + q.key + "=\""
-	lines := wrapWords(q.val, 58, len(head))
+	lines := wrapWords(q.val, gbFieldWidth, len(head))
 	lines[0] = head + lines[0]
 	lines[len(lines)-1] += "\""
 	return lines
